@@ -6,6 +6,7 @@ import (
 	"os"
 	"sort"
 	"strconv"
+	"strings"
 	"testing"
 	"time"
 )
@@ -245,6 +246,13 @@ func TestWorker(t *testing.T) {
 	nontriv := map[uint64]bool{}
 	all := map[uint64]bool{}
 	seenViol := map[string]bool{}
+	known := map[string]bool{} // recorded findings (class, key): reported like any violation, but not minimised again
+	for _, k := range strings.Split(os.Getenv("VERIF_KNOWN"), "\x1e") {
+		if p := strings.SplitN(k, "\x1f", 2); len(p) == 2 {
+			known[p[0]+"|"+p[1]] = true
+		}
+	}
+	nKnown := 0
 	start := time.Now()
 	for idx := from; idx < to; idx++ {
 		if time.Now().After(deadline) {
@@ -291,6 +299,12 @@ func TestWorker(t *testing.T) {
 				continue
 			}
 			seenViol[k] = true
+			if known[k] {
+				nKnown++
+				path := writeReplay(replayDir, prop, seed, tier, r, v, r.Tapes, false, len(out.Violations))
+				out.Violations = append(out.Violations, ViolationRec{Violation: v, Index: idx, Replay: path})
+				continue
+			}
 			tp, reruns := minimise(t, prop, seed, idx, tier, r.Tapes, v.Class, v.Key, envInt("VERIF_SHRINK_RERUNS", 1500), time.Duration(envInt("VERIF_SHRINK_S", 45))*time.Second)
 			min := true
 			// the minimised tape must reproduce in this process; otherwise keep the original
@@ -305,7 +319,7 @@ func TestWorker(t *testing.T) {
 			path := writeReplay(replayDir, prop, seed, tier, mr, vv, tp, min, len(out.Violations))
 			out.Violations = append(out.Violations, ViolationRec{Violation: vv, Index: idx, Replay: path, Minimised: min, Reruns: reruns})
 		}
-		if len(seenViol) >= maxViol {
+		if len(seenViol)-nKnown >= maxViol {
 			out.StoppedEarly = true
 			break
 		}
